@@ -138,7 +138,11 @@ func checkC16(c *Ctx) (string, bool, []string) {
 	nrand := c.N(1500, 60000)
 	mon.Parallel(nrand, c.Workers, func(i int) {
 		local := map[string]int64{}
-		gc := genCase(c.Seed, "c16.rand", i, -1, -1, gen.Opts{Hostile: i%4 == 0, MaxDepth: 2}, "spaced")
+		layout := "spaced"
+		if i%3 == 0 {
+			layout = "loose" // also a blank after the dots of segmented names, where few write one
+		}
+		gc := genCase(c.Seed, "c16.rand", i, -1, -1, gen.Opts{Hostile: i%4 == 0, MaxDepth: 2}, layout)
 		c16Gaps(c, gc, local)
 		r.DistinctStr(gc.Text)
 		local["statements"]++
